@@ -260,7 +260,7 @@ pub fn render_interface_item(p: &Program, i: &Interface) -> String {
         let e = if m.err == ErrTy::Custom { "Self::Error" } else { "StdError" };
         let sg = sig(m, kind, &[], &assocs, sc, sq, e, true);
         // forwarded attributes are written above or below `sv::msg` (both are legal)
-        let above = m.name.len() % 2 == 0;
+        let above = (m.name.len() % 2 == 0) ^ p.contract.flip_attr_order;
         if !above {
             writeln!(s, "    {}", sg.attr).unwrap();
         }
@@ -357,7 +357,7 @@ pub fn contract_method_texts(p: &Program) -> Vec<String> {
         let sg = sig(m, kind, &params, &[], c, q, e, true);
         let id = format!("ctr::{}::{}", kind.attr(), m.name);
         let resp_conc = if resp_twin(m) { format!("{}Twin", resp_rust(m.resp, &params)) } else { resp_rust(m.resp, &params) };
-        let above = m.name.len() % 2 == 0;
+        let above = (m.name.len() % 2 == 0) ^ p.contract.flip_attr_order;
         if !above {
             writeln!(s, "    {}", sg.attr).unwrap();
         }
